@@ -4,8 +4,10 @@
 // harness/c04/sync_payload.sh; the master is harness/c04/payload_gen.go).
 //
 // Token format (DESIGN §C04, lean/OtelVerif/Model/Payload.lean Codec):
-//   R attr schema base   S name ver attr schema base   I id bsz w
-//   metrics:  M name unit desc ty temp mono md base ibase   P id bsz
+//
+//	R attr schema base   S name ver attr schema base   I id bsz w
+//	metrics:  M name unit desc ty temp mono md base ibase   P id bsz
+//
 // Every identity field is a small number written into the real object as a string/attribute and parsed back
 // from the real object when dumping, so a field that is lost or altered shows up as a different token.
 package batchprocessor
